@@ -302,3 +302,44 @@ def valueless_fields_are_members(nested: bool, kind: int, with_plain: bool) -> b
         hold("member", p in cfg, lambda: "enumerated path %r fails the membership test" % (p,))
     hold("member", ("sec.w" if nested else "w") not in cfg, "membership true for an undeclared sibling")
     return True
+
+
+# --------------------------------------------------------------------------- command line and environment together
+@obligation(prop="C16", sites=("override",), stubs=("FakeEnviron",), budget={"quick": 120, "thorough": 240},
+            encodes=["cincoconfig.support.cmdline_args_override", "cincoconfig.support.generate_argparse_parser"],
+            what="fields bound to environment variables (schema prefix; root and nested; the variable set or not): "
+                 "an option supplied on the command line overrides the field - the variable's value is what was "
+                 "there before, not a veto - and options that were not supplied leave the variable's value in place")
+def cmdline_override_beats_environment(nested: bool, var_set: bool, supplied: bool, other_supplied: bool) -> bool:
+    """
+    post: _
+    """
+    from vf.hlib.stubs import fake_environ
+    environ = {}
+    if var_set:
+        environ["APP_SEC_PORT" if nested else "APP_PORT"] = "9000"
+        environ["APP_NAME"] = "envname"
+    with fake_environ(environ):
+        schema = Schema(env="APP")
+        owner = schema.sec if nested else schema
+        owner.port = IntField(default=80, min=1)
+        schema.name = StringField(default="dflt")
+        schema.free = IntField(default=5, env=False)
+        cfg = schema()
+        start_port = 9000 if var_set else 80
+        owner_cfg = cfg.sec if nested else cfg
+        hold("override", owner_cfg.port == start_port, "unexpected start value")
+        parser = generate_argparse_parser(schema, prog="t", add_help=False)
+        argv = []
+        if supplied:
+            argv += ["--sec-port" if nested else "--port", "8080"]
+        if other_supplied:
+            argv += ["--free", "6"]
+        args = parser.parse_args(argv)
+        cmdline_args_override(cfg, args)
+        owner_cfg = cfg.sec if nested else cfg
+        hold("override", owner_cfg.port == (8080 if supplied else start_port),
+             lambda: "port is %r after the override (supplied: %r, variable set: %r)" % (owner_cfg.port, supplied, var_set))
+        hold("override", cfg.free == (6 if other_supplied else 5), "unbound option not applied")
+        hold("override", cfg.name == ("envname" if var_set else "dflt"), "a field that was not supplied changed")
+    return True
